@@ -293,6 +293,17 @@ def value_at(block: Sequence[ast.stmt], use_stmt: ast.stmt, expr, seeds=(), keep
                 vals = [Sub().visit(_copy.deepcopy(v_)) for v_ in s_.value.elts]
                 for t_, v_ in zip(s_.targets[0].elts, vals):
                     env[t_.id] = v_
+            elif (
+                isinstance(s_, ast.Assign)
+                and len(s_.targets) == 1
+                and isinstance(s_.targets[0], ast.Tuple)
+                and all(isinstance(t_, ast.Name) for t_ in s_.targets[0].elts)
+                and isinstance(s_.value, (ast.Name, ast.Attribute, ast.Subscript))
+            ):
+                # unpacking of a sequence value: `start, end = section.index`
+                base_ = Sub().visit(_copy.deepcopy(s_.value))
+                for k_, t_ in enumerate(s_.targets[0].elts):
+                    env[t_.id] = ast.Subscript(value=_copy.deepcopy(base_), slice=ast.Constant(value=k_), ctx=ast.Load())
             else:
                 # anything else that assigns a name makes that name unknown
                 for nm in assigned_names(s_):
